@@ -22,12 +22,17 @@ LEVEL = "model_checking"
 MANIFEST = {
     "text": "TLC checks the total (malformed-tolerant) semantics of Shaper.tla for conservation, stack discipline, "
             "budget and termination; ShaperSafety.tla states that a shaping object is a function of (tables, input); "
-            "TLC-generated call histories are run on real reused Context/Layouter objects over built, random and "
-            "reader-delivered corrupted tables and every recorded call is validated by TLC (ShaperSafetyTrace.tla): "
-            "no panic, no hang, text conserved, length bound, same result as a fresh object.",
+            "TLC-generated call histories are run on real reused Context/Layouter objects (and on NEW Layouters of a font "
+            "with several language systems of one script) over built tables (every malformed shape, catalogue sample "
+            "incl. cursive attachment, sibling filters, rewrites among trailing ignored glyphs; random tables) and over "
+            "tables gtab.Read accepts after corruption of single words (all structural words, a sample of the rest); "
+            "every recorded call is validated by TLC (ShaperSafetyTrace.tla): no panic, no hang, text conserved, "
+            "length bound, same result as a fresh object.",
     "note": "Trusted: TLC, the harness's recover/watchdog/digest code, gtab.Info.Encode as the seed for corrupted "
             "tables. Non-termination is detected by a 20 s watchdog per call. Positioning data the library declares "
-            "unimplemented (its documented 'not implemented' panic) is excluded as the property says.",
+            "unimplemented (its documented 'not implemented' panic) is excluded as the property says. Liveness of the "
+            "subjects is measured (mutants that still have lookups, calls that rewrote their input) and too low a share "
+            "is an infrastructure error.",
     "technique": "TLC model checking of Shaper.tla total semantics (safety + liveness) and trace validation of recorded "
                  "Context/Layouter histories against ShaperSafetyTrace.tla",
 }
